@@ -4,7 +4,8 @@
  * (headers), defines C20_FREQ_CAP / C20_HOPP_CAP (the callers' buffer sizes read from the tree)
  * and #includes this file at its end.  Built with clang -fsanitize=address,undefined
  * -fno-sanitize-recover=all: a sanitizer report aborts the process, the check attributes it to the
- * first unanswered request (every answer line is flushed) and answers `OOB` for it.
+ * first unanswered request (every answer line is flushed) and answers `OOB` for it; with the
+ * argument `fork` every request runs in its own child process instead.
  *
  *   ma.decode CA BITMAP LEN SI4 STALE BG
  *       CA     cell allocation: comma separated ARFCNs (FREQ_TYPE_SERV set) or `-`
@@ -53,9 +54,9 @@ static int c20_hexval(int c)
 static char c20_line[1 << 16], c20_ca[1 << 15], c20_hex[1 << 12], c20_stale[1 << 15];
 static int c20_tmp[4096];
 
-int main(void)
+static void c20_case(void)
 {
-	while (fgets(c20_line, sizeof(c20_line), stdin)) {
+	{
 		long len, si4, bg;
 		int n, i, nb, k, first;
 		struct gsm_sysinfo_freq *freq;
@@ -67,7 +68,7 @@ int main(void)
 			   c20_stale, &bg) != 6 || len < 0 || len > 255 || bg < 0 || bg > 255) {
 			printf("bad-op\n");
 			fflush(stdout);
-			continue;
+			return;
 		}
 		freq = malloc(C20_FREQ_CAP * sizeof(*freq));
 		before = malloc(C20_FREQ_CAP);
@@ -90,7 +91,7 @@ int main(void)
 			printf("bad-op\n");
 			fflush(stdout);
 			free(freq); free(before);
-			continue;
+			return;
 		}
 		nb /= 2;
 		ma = malloc(nb);
@@ -103,7 +104,7 @@ int main(void)
 			printf("bad-op\n");
 			fflush(stdout);
 			free(freq); free(before); free(ma);
-			continue;
+			return;
 		}
 		for (i = 0; i < C20_FREQ_CAP; i++)
 			before[i] = freq[i].mask;
@@ -136,6 +137,42 @@ int main(void)
 		printf("\n");
 		fflush(stdout);
 		free(freq); free(before); free(ma); free(hopping); free(hopp_len);
+	}
+}
+
+#include <unistd.h>
+#include <sys/wait.h>
+
+/* default: all requests in this process (an abort ends the batch; the check re-runs the remainder).
+ * `fork`: one child per request, so that an abort is attributed without leaving the batch: the
+ * parent answers `OOB` and writes `@@C20-ABORT <request number>` behind the child's report on stderr. */
+int main(int argc, char **argv)
+{
+	int forking = argc > 1 && !strcmp(argv[1], "fork");
+	long n = 0;
+
+	while (fgets(c20_line, sizeof(c20_line), stdin)) {
+		if (!forking) {
+			c20_case();
+		} else {
+			pid_t pid;
+			int status = 0;
+			fflush(stdout);
+			fflush(stderr);
+			pid = fork();
+			if (pid == 0) {
+				c20_case();
+				fflush(stdout);
+				_exit(0);
+			}
+			if (pid < 0 || waitpid(pid, &status, 0) < 0 || status != 0) {
+				printf("OOB\n");
+				fflush(stdout);
+				fprintf(stderr, "\n@@C20-ABORT %ld\n", n);
+				fflush(stderr);
+			}
+		}
+		n++;
 	}
 	return 0;
 }
